@@ -23,7 +23,7 @@ META = {
 }
 
 REFS = ["#", "#/definitions/a", "#/definitions/nope", "#/", "#/a~1b", "#/items/0", "nope.json", "#/properties/a", "#/definitions",
-        "#/definitions/a/type"]
+        "#/definitions/a/type", "#/definitions/a/type/0", "#/definitions/a/type/name", "#/definitions/a/x/y"]
 NON_SCHEMA_REF = "#/definitions/a/type"      # designates the string "integer": known finding F10
 IDS = ["", "http://x.test/a.json", "b.json", "#frag", "http://x.test/dir/", "urn:x"]
 REGEXES = tp.REGEXES + ["a{2}", "(a|b)*c"]
